@@ -8,7 +8,8 @@
       Err             = AssertionError;   Fuel = the explicit fuel ran out (excluded in the statements)
     [ns] = g_resolution_no_shadow: [true] is the repaired loop (current tree), [false] the pinned loop (D6). *)
 From Coq Require Import ZArith NArith List Bool Lia.
-From Pi2 Require Import Taut.Model Taut.Stages Taut.Sets Taut.Resolution Taut.Complete Taut.Termination Taut.PLModel Taut.ProofLayer Taut.BuildTerm Taut.ProofLayer2 Taut.Glue Taut.Merge Taut.Glue2 Taut.AC Taut.Helpers Taut.Full.
+From Pi2 Require Import Taut.Model Taut.Stages Taut.Sets Taut.Resolution Taut.Complete Taut.Termination Taut.PLModel Taut.ProofLayer Taut.BuildTerm Taut.ProofLayer2 Taut.Glue Taut.Merge Taut.Glue2 Taut.AC Taut.Helpers Taut.Full
+  Taut.GenPrelude Gen.TautVerdict Taut.GenTautAgree.
 Import ListNotations.
 
 (* ------------------------------------------------------------------------------------------ *)
@@ -413,3 +414,68 @@ Example C09_prove_tautology_conc_full_nonvacuous :
   prove_tautology_p model_pieces true 1000 (FAnd (FOr (FVar 0) (FVar 1)) (FAnd (FNeg (FVar 0)) (FNeg (FVar 1))))
     = Ok (Some (false, k_neg (expand (FAnd (FOr (FVar 0) (FVar 1)) (FAnd (FNeg (FVar 0)) (FNeg (FVar 1))))))).
 Proof. split; vm_compute; reflexivity. Qed.
+
+(* ------------------------------------------------------------------------------------------ *)
+(** * 8. tie by TRANSLATION: the verdict layer regenerated from the current tautology.py
+
+    coq/Gen/TautVerdict.v is produced on every run by translators/taut_verdict.py (Python-ast, fail closed) from the
+    methods resolvable, is_trivial_clause, to_conj_form, propag_neg, to_cnf, to_clauses, resolution_algorithm,
+    start_resolution_algorithm, prove_tautology.  Proof objects are projected away (see the generated header);
+    the reading of the Python data model is Taut/GenPrelude.v.  Taut/GenTautAgree.v proves the generated functions equal
+    to / in agreement with the hand-written model, so the theorems above transfer to the generated code. *)
+
+(** the stage functions of the source *)
+Theorem C09_source_stages_agree :
+  (forall c1 c2, gen_resolvable c1 c2 = Ok (resolvable c1 c2)) /\
+  (forall cl, gen_is_trivial_clause cl = Ok (is_trivial cl)) /\
+  (forall fuel p, gen_to_conj_form fuel p = Fuel \/ gen_to_conj_form fuel p = Ok (tcf p)) /\
+  (forall fuel t b, gen_propag_neg fuel (togb b t) = Fuel \/ gen_propag_neg fuel (togb b t) = of_option (pn b t)) /\
+  (forall fuel t, gen_to_cnf fuel t = to_cnf fuel t) /\
+  (forall fuel t, gen_to_clauses fuel t = Fuel \/ gen_to_clauses fuel t = of_option (to_clauses t)) /\
+  (forall p fuel, (kdepth p < fuel)%nat -> gen_to_conj_form fuel p <> Fuel) /\
+  (forall t b fuel, (cheight t < fuel)%nat -> gen_propag_neg fuel (togb b t) <> Fuel) /\
+  (forall t fuel, (cheight t < fuel)%nat -> gen_to_clauses fuel t <> Fuel).
+Proof.
+  repeat split.
+  - exact gen_resolvable_agree.
+  - exact gen_is_trivial_agree.
+  - exact gen_to_conj_form_spec.
+  - exact gen_propag_neg_spec.
+  - exact gen_to_cnf_agree.
+  - exact gen_to_clauses_spec.
+  - exact gen_to_conj_form_fuel.
+  - exact gen_propag_neg_fuel.
+  - exact gen_to_clauses_fuel.
+Qed.
+Print Assumptions C09_source_stages_agree.
+
+(** the double loop of the source: every run of the model's loop (repaired configuration, no_shadow = true) is
+    reproduced by the generated loops with the same verdict, final list and hint dictionary; the generated loops are
+    monotone in their fuel.  Re-introducing `cl1, cl2 = cl2, cl1` changes the generated inner loop (cl1 becomes
+    threaded state) and this lemma no longer type-checks. *)
+Theorem C09_source_loop_agree :
+  (forall n h l b l' h', resolution_algorithm true n h l = Ok (b, l', h') ->
+     forall F, (S n < F)%nat -> gen_resolution_algorithm F h l = Ok (b, h', l')) /\
+  (forall F h l x, gen_resolution_algorithm F h l = Ok x ->
+     forall F', (F <= F')%nat -> gen_resolution_algorithm F' h l = Ok x) /\
+  (forall n cls v l h, start_resolution true n cls = Ok (v, l, h) ->
+     forall F, (S n < F)%nat -> (length cls < F)%nat -> gen_start_resolution_algorithm F cls = Ok v).
+Proof. split; [exact resolution_algorithm_to_gen|split; [exact gen_ra_mono|exact gen_start_of_model]]. Qed.
+Print Assumptions C09_source_loop_agree.
+
+(** C09_source_decide: the decision function GENERATED FROM THE SOURCE is sound, complete and terminating:
+    whatever it answers (any fuel) is the semantic class of the formula, and with [source_fuel f] it answers. *)
+Theorem C09_source_decide :
+  (forall F f r, gen_decide F f = Ok r ->
+     (r = Some true <-> tautology f) /\ (r = Some false <-> unsat f) /\ (r = None <-> contingent f)) /\
+  (forall f F, (source_fuel f <= F)%nat -> exists r, gen_decide F f = Ok r).
+Proof.
+  split.
+  - intros F f r H. destruct (gen_decide_sound _ _ _ H) as [N HN]. exact (decide_correct _ _ _ HN).
+  - intros f F HF. destruct (gen_decide_total f F HF) as (r & _ & Hr). exists r. exact Hr.
+Qed.
+Print Assumptions C09_source_decide.
+Example C09_source_decide_nonvacuous :
+  gen_decide 200 d6_witness = Ok (Some true) /\ gen_decide 200 (FVar 0) = Ok None /\
+  gen_decide 300 (FAnd (FEquiv (FVar 0) (FVar 1)) (FEquiv (FVar 0) (FNeg (FVar 1)))) = Ok (Some false).
+Proof. repeat split; vm_compute; reflexivity. Qed.
